@@ -155,7 +155,7 @@ def replay_rl(lineup, nb, jobs, S, eps):
 
 def _model(theta, N, seed):  # noqa: N803
     rng = np.random.default_rng(seed)
-    return np.full((N, 1), float(theta[0])) + rng.normal(size=(N, 1)) * 0.05
+    return np.full((N, 1), float(np.sum(theta))) + rng.normal(size=(N, 1)) * 0.05
 
 
 def replay_concrete(lineup, nb, E, jobs, S):
@@ -171,13 +171,15 @@ def replay_concrete(lineup, nb, E, jobs, S):
             samplers.append(s)
         with contextlib.redirect_stdout(io.StringIO()), warnings.catch_warnings():
             warnings.simplefilter("ignore")
-            c = cal.Calibrator(loss_function=MinkowskiLoss(), real_data=np.array([[0.3], [0.6]]), model=_model, parameters_bounds=[[0.0], [1.0]],
-                               parameters_precision=[1.0 / 256], ensemble_size=E, samplers=samplers, verbose=verbose, saving_folder=folder, random_state=S, n_jobs=n_jobs)
-            ret = c.calibrate(nb)
+            # three parameters in the replay (some learners only use their randomness with several features)
+            c = cal.Calibrator(loss_function=MinkowskiLoss(), real_data=np.array([[0.3], [0.6]]), model=_model, parameters_bounds=[[0.0] * 3, [1.0] * 3],
+                               parameters_precision=[1.0 / 256] * 3, ensemble_size=E, samplers=samplers, verbose=verbose, saving_folder=folder, random_state=S, n_jobs=n_jobs)
+            ret = c.calibrate(nb + 3 if any(k in ("xgb", "rf", "gp") for k, _ in lineup) else nb)
         return c, ret
 
     tmp = tempfile.mkdtemp(prefix="verif-c01-")
     try:
+        nb_ = nb + 3 if any(k in ("xgb", "rf", "gp") for k, _ in lineup) else nb  # learners need some history before their randomness matters
         a, ra = run([11 + i for i in range(len(lineup))], min(jobs[0], 2), False, None)
         b, rb = run([97 + 3 * i for i in range(len(lineup))], min(jobs[1], 2), True, tmp)
     except Exception as e:  # noqa: BLE001
